@@ -8,7 +8,9 @@ CHECK_FN = "check_C17"
 RULE = ("translate: the complete 15^3 codon grid (lenient, as 15 sequences of 225 codons; strict, one codon per case: "
         "all 3375 in the thorough tier, a seeded sample in the quick tier) plus random sequences incl. lower case, "
         "non-IUPAC bytes and lengths not divisible by 3; complement/reverse-complement in text and bit-encoded form "
-        "(both gap encodings) on all 32 accepted characters and random sequences. Non-trivial: contains an ambiguity "
+        "(both gap encodings) on all 32 accepted characters and random sequences; every text complement and one translation in seven is "
+        "repeated 300 times while three other goroutines call the same package functions on other sequences (the workers of --threads N do so) "
+        "and must return what it returned alone. Non-trivial: contains an ambiguity "
         "code or gap. Distinct by case content.")
 
 
@@ -20,12 +22,12 @@ def case(cid, op, hard, x, gocase, meta):
 
 def tr(cid, x, strict, kind):
     nt = any(c not in b"ACGT" for c in x)
-    return case(cid, 1 if strict else 0, False, x, {"op": "translate", "nuc": cm.b64(x), "strict": strict},
+    return case(cid, 1 if strict else 0, False, x, {"op": "translate", "nuc": cm.b64(x), "strict": strict, "load": cid % 7 == 0},
                 {"kind": kind, "nontrivial": nt})
 
 
 def comp(cid, x, reverse, kind):
-    return case(cid, 3 if reverse else 2, False, x, {"op": "complement", "nuc": cm.b64(x), "reverse": reverse},
+    return case(cid, 3 if reverse else 2, False, x, {"op": "complement", "nuc": cm.b64(x), "reverse": reverse, "load": True},
                 {"kind": kind, "nontrivial": any(c not in b"ACGTacgt" for c in x)})
 
 
